@@ -84,6 +84,7 @@ type Val struct {
 	// Escaped: the allocation was handed to opaque code (a decoder, a user callback): fields it was not given at its allocation site
 	// are unknown afterwards, not zero
 	Escaped bool
+	InGo    bool // built while the body of a spawned (`go`) function was walked, i.e. possibly after the spawner returned
 }
 
 func (v *Val) String() string {
